@@ -164,6 +164,19 @@ func interactionPrograms() []string {
 		`f = func(a, a, a, a, a, a, a, a, a, a) {a}; println(f(1, 2, 3, 4, 5, 6, 7, 8, 9, 10))`, `f = func(a, a) {g = func() {a}; g()}; println(f(1, 2))`,
 		`func f(i) {quote(i)}; println(f(1))`, `func f(i) {quote(i + 1)}; println(f(1))`, `for j = 2 {println(quote(j * 2))}`, `func f(n) {for j = n {println(quote([n, j]))}}; f(2)`,
 		`func f(i) {q = quote(i); ++i; println(q)}; f(1)`, `func f(i) {println(quote(unquote(i)))}; f(1)`)
+	// (J) the variable of a counted loop after the loop, for every way of leaving it and every prior binding of the name
+	//     (error wording is not observed: E stands for any error)
+	probe := func(v string) string { return "r = catch(" + v + "); println(if r.err {\"E\"} else {r.value})" }
+	val := func(v string) string { return "r = catch(" + v + "); if r.err {\"E\"} else {r.value}" }
+	for _, pre := range []string{"", "i = 100; ", `i = "s"; `, "i = [1]; "} {
+		for _, loop := range []string{"for i = 3 {}", "for i = 0 {}", "for i = 2:5 {}", "for i = 5 {if i == 2 {break}}", "for i = 5 {if i == 2 {continue}}", "for i = 3 {++i}",
+			"catch(for i = 5 {if i == 3 {error(\"e\")}})", "for i = 2 {for j = 3 {}}; " + probe("j"), "for i = 2 {for i = 3 {}}", "for i = 3 {i = i + 10}", "for i = 3 {i++}"} {
+			out = append(out, pre+loop+"; "+probe("i"))
+			out = append(out, pre+"f = func() {"+loop+"; "+val("i")+"}; println(f()); "+probe("i"))
+			out = append(out, pre+"f = func(i) {"+loop+"; i}; println(catch(f(7)).err); "+probe("i"))
+			out = append(out, pre+"f = func(n) {"+strings.ReplaceAll(loop, "i = 3", "i = n")+"; r = catch(i); [(if r.err {\"E\"} else {r.value}), n]}; println(f(3))")
+		}
+	}
 	// containers reached through references
 	for _, a := range []string{"x[0] = 5", `x.k = 5`, "del(x[0])", "x = x + 1", "x = x + x", "del(x)"} {
 		for _, init := range []string{"[1, 2, 3]", `{"k": 1, 0: 2}`, "1:12", `{1: 1, 2: 2, 3: 3, 4: 4, 5: 5}`} {
